@@ -48,6 +48,19 @@ def impl_findings(after_use=False):
                                 set=s, other=seen[name][0], name=name, impl=v, other_value=seen[name][1],
                                 same_sa_table=seen[name][2] == sa))
             seen.setdefault(name, (s, v, sa))
+    # the tables attached device objects carry (after use): the same judgement, and the same name must have the value the shared sets give it
+    for dname, ents in sorted((r.get("attached") or {}).items()):
+        for name, oname, v, sa in ents:
+            t = t10_value(name, ops)
+            if t != v:
+                out.append(dict(kind="attached-opcode-value", id="attached-opcode:%s" % name, device=dname, name=name, impl=v, t10=t,
+                                what="the command set an attached device (%s) carries lists %s as %s; T10 assigns %s" % (
+                                    dname, name, ("%02Xh" % v) if isinstance(v, int) and v >= 0 else v, ("%02Xh" % t) if t is not None else "nothing to that name")))
+            elif name in seen and seen[name][1] != v:
+                out.append(dict(kind="attached-inconsistent", id="attached-inconsistent:%s" % name, device=dname, name=name, impl=v, other_value=seen[name][1]))
+            for sk, sv in sa:
+                if sas.get(sk) != sv:
+                    out.append(dict(kind="attached-service-action-value", id="attached-sa:%s.%s" % (name, sk), device=dname, name=name, service_action=sk, impl=sv, t10=sas.get(sk)))
     for s, name, kind, v in r.get("unlisted", []):
         t = t10_value(name, ops)
         if kind == "exn" or (t is not None and t != v):
